@@ -3,7 +3,9 @@
 (* Trace validation for C14: every recorded call of a list / string /      *)
 (* record operation on random arguments (lists up to length 40, non-ASCII  *)
 (* strings, negative and out-of-range indexes) is recomputed with the      *)
-(* definitional Apply of BlotsBuiltins; TLC is the oracle.                 *)
+(* definitional Apply of BlotsBuiltins; TLC is the oracle.  Strings over a *)
+(* wider character pool than the model alphabet are covered by "strlaw"    *)
+(* events (agreement of spread, index, slice, head / tail, len, join).     *)
 (***************************************************************************)
 EXTENDS BlotsBuiltins, TLC, Json, IOUtils
 
@@ -19,9 +21,16 @@ CallOk(e) ==
        ELSE e.res.t \notin {"panic", "parse"}
   ELSE e.res = x
 
+\* "strlaw" events: a string over a wide character pool (characters sharing their low byte or their low 16 bits, combining
+\* marks, astral characters), examined in ONE session in which other strings were taken apart before: its spread, its
+\* indexed characters, its one-character slices, head / tail and len must all describe the same character sequence, which
+\* is the one the harness put in (`chars`)
+StrLawOk(e) == /\ e.spread = e.chars /\ e.indexed = e.chars /\ e.sliced = e.chars
+               /\ e.len = Len(e.chars) /\ e.joined /\ e.headtail
+EventOk(e) == IF e.ev = "strlaw" THEN StrLawOk(e) ELSE CallOk(e)
 Init == l = 1 /\ bad = <<>>
 Step == /\ l <= Len(Events)
-        /\ bad' = IF CallOk(Events[l]) THEN bad ELSE Append(bad, l)
+        /\ bad' = IF EventOk(Events[l]) THEN bad ELSE Append(bad, l)
         /\ l' = l + 1
 TraceSpec == Init /\ [][Step]_vars
 Final == (l = Len(Events) + 1) => PrintT(<<"TRACE_RESULT", ToJson([consumed |-> l - 1, bad |-> bad])>>)
